@@ -1375,6 +1375,15 @@ fn run(args: &Args) {
                         // point signs as well; that it is the canonical transaction of that content is what
                         // the model's sign_phase1 is compared on (pass B)
                         let tx_changed = tx != mtx;
+                        // same content (arguments untouched, the decoder reads the same balances) but
+                        // another transaction: the canonical transaction of that content is the model's
+                        let same_content = !args_changed
+                            && obs.as_ref().map(|o| o.cs_value == c.to_holder && o.b_value == c.to_cp).unwrap_or(false);
+                        if tx_changed && same_content {
+                            viol.push(json!({"what": "phase 1 signed a transaction that is not byte for byte the canonical transaction of its content",
+                                             "mutation": ms.iter().map(|x| x.coq()).collect::<Vec<_>>(),
+                                             "tx": hexs(&serialize(&tx)), "canonical": hexs(&m.tx)}));
+                        }
                         if !acc {
                             viol.push(json!({"what": "phase 1 signed for a content (its arguments and the balances of the supplied transaction) that the semantic entry point refuses",
                                              "mutation": ms.iter().map(|x| x.coq()).collect::<Vec<_>>(), "tx": hexs(&serialize(&tx))}));
